@@ -452,6 +452,31 @@ def check_quoted(ctx):
         "'Member':%(role.name)s is mistaken for a bare string)")
 
 
+def check_quoted_peel(ctx):
+    """The quoted-string test looks at the same word the leaf parser is
+    handed: the token with its parentheses peeled on both sides.  Made on a
+    word peeled on one side only, a leaf quoted at both ends ('a':'b') is a
+    check where a parenthesis follows it and a bare string elsewhere: the
+    printed form of `(not 'a':'b')` parses to `!`."""
+    tf, en, paths = T.extract(ctx.prog)
+    g = tf.func
+    sides = getattr(tf, 'string_sides', None)
+    if sides is None:
+        raise AnalysisError('tokenizer never yields a string token')
+    ok = len(sides) != 1
+    ctx.ob('C05.QUOTED', ok, '%s:%d' % (
+        ctx.where(g.module, g.node).split(':')[0], tf.string_yield.line),
+        g.qual, 'word tested for enclosing quotes (peeled: %s)' % (
+            sorted(sides) or 'as split'),
+        'the quoted-string test and the leaf parser look at the same word'
+        if ok else
+        'the quoted-string test is made on a word peeled on one side only '
+        '(%s): a leaf quoted at both ends is a check when a parenthesis on '
+        'the other side follows it and a bare string otherwise, so the '
+        'printed form of a rule containing it parses to a different rule'
+        % sorted(sides)[0])
+
+
 def check(ctx):
     ctx.use(CHECKS, PARSER)
     ctx.explain('C05: paths of the leaf parser, the generic check and its '
@@ -463,3 +488,4 @@ def check(ctx):
     walker = check_generic(ctx, gq)
     check_walker(ctx, walker)
     check_quoted(ctx)
+    check_quoted_peel(ctx)
